@@ -1,18 +1,450 @@
-//! C07 — (stub, under construction)
+//! C07 — subsetting preserves the outlines and metrics of retained glyphs.
+//!
+//! Conservation oracle: the source font and allsorts' subset are both read by the independent
+//! glyf/loca/hmtx reader; output glyph k must be source glyph ids[k], composites must agree after
+//! mapping component ids new -> old, extra glyphs must be exactly the pulled-in components, and
+//! every output glyph keeps its advance and left side bearing. CFF / CFF2 sources: allsorts' own
+//! charstring interpreter with a recording sink on both sides (C18 judges the interpreter), the
+//! advance width each charstring declares (independent Type 2 scanner) and hmtx.
+
+#[path = "c07_common.rs"]
+pub mod common;
 
 use super::Prop;
 use crate::rt::*;
+use crate::sfnt::cff_c07;
+use crate::sfnt::glyf::{self as ig, Glyph};
+use crate::sfnt::tables as it;
+use crate::sfnt::{self};
+use allsorts::binary::read::ReadScope;
+use allsorts::cff::cff2::CFF2;
+use allsorts::cff::outline::CFF2Outlines;
+use allsorts::cff::CFF;
+use allsorts::outline::OutlineBuilder;
+use common::*;
+use std::collections::HashMap;
+use std::rc::Rc;
 
-pub struct C07 {}
+pub struct C07 {
+    w: Workload,
+}
 
 impl C07 {
-    pub fn new(_cx: &mut Ctx) -> C07 {
-        C07 {}
+    pub fn new(cx: &mut Ctx) -> C07 {
+        C07 { w: Workload::new(cx) }
+    }
+}
+
+/// Build a subsetting case (shared by C07 and C08; C09 adds whole_font / instance).
+pub fn subset_case(w: &mut Workload, cx: &mut Ctx, rng: &mut Rng, cats: [u32; 6], want: Option<CmapScenario>) -> Option<(Case, Option<GenInfo>)> {
+    let (src, info) = w.pick_src(cx, rng, cats, want)?;
+    let (ids, id_mode) = gen_ids(&src, rng, cx.quick());
+    let op = if rng.chance(2, 5) { Op::Subset } else { Op::Prince { target: gen_target(rng, &ids), cid_threshold: rng.bool() } };
+    let choice = match rng.below(6) {
+        0 => 1,
+        1 | 2 => 2,
+        _ => 0,
+    };
+    let (container, bytes) = wrap(&src, rng, choice);
+    Some((Case { src, ids, id_mode, op, container, bytes }, info))
+}
+
+pub struct OutTt {
+    pub font: sfnt::Font,
+    pub n: usize,
+    pub loca: Vec<u32>,
+    pub metrics: Vec<(u16, i16)>,
+}
+
+impl OutTt {
+    pub fn glyph(&self, g: usize) -> Option<(Glyph, ig::BBox)> {
+        let glyf = self.font.gets("glyf")?;
+        ig::read_glyph(glyf.get(*self.loca.get(g)? as usize..*self.loca.get(g + 1)? as usize)?)
+    }
+}
+
+/// Read the TrueType output with the independent reader. Err(sig, detail) when it cannot be read.
+pub fn read_out_tt(out: &[u8]) -> Result<OutTt, (&'static str, String)> {
+    let font = sfnt::Font::parse(out).ok_or(("output-unparsable", "table directory".to_string()))?;
+    let need = |t: &str| font.gets(t).ok_or(("output-table-missing", format!("table {} missing", t)));
+    let n = it::maxp_num_glyphs(need("maxp")?).ok_or(("output-unparsable", "maxp".to_string()))? as usize;
+    let head = it::Head::read(need("head")?).ok_or(("output-unparsable", "head".to_string()))?;
+    let loca = ig::read_loca(need("loca")?, n, head.index_to_loc_format != 0).ok_or(("output-loca-too-short", format!("loca for {} glyphs", n)))?;
+    let glyf = need("glyf")?;
+    for w in loca.windows(2) {
+        if w[1] < w[0] || w[1] as usize > glyf.len() {
+            return Err(("output-loca-inconsistent", format!("offsets {}..{} glyf {}", w[0], w[1], glyf.len())));
+        }
+    }
+    let nhm = it::Hhea::read(need("hhea")?).ok_or(("output-unparsable", "hhea".to_string()))?.num_h_metrics as usize;
+    let metrics = it::read_hmtx(need("hmtx")?, n, nhm).ok_or(("output-hmtx-too-short", format!("hmtx for {} glyphs / {} long metrics", n, nhm)))?;
+    Ok(OutTt { font, n, loca, metrics })
+}
+
+/// The TrueType conservation oracle. Returns the new -> old table when everything held.
+pub fn check_truetype(cx: &mut Ctx, case: &Case, out: &[u8]) -> Option<Vec<u16>> {
+    let src = &case.src;
+    let o = match read_out_tt(out) {
+        Ok(o) => o,
+        Err((sig, d)) => {
+            cx.violation("output-readable", sig, case.witness(d));
+            return None;
+        }
+    };
+    let nreq = case.ids.len();
+    if o.n < nreq {
+        cx.violation("glyph-order", "fewer-glyphs-than-requested", case.witness(format!("output has {} glyphs, {} requested", o.n, nreq)));
+        return None;
+    }
+    let mut n2o: Vec<Option<u16>> = vec![None; o.n];
+    let mut o2n: HashMap<u16, u16> = HashMap::new();
+    for (k, g) in case.ids.iter().enumerate() {
+        n2o[k] = Some(*g);
+        o2n.insert(*g, k as u16);
+    }
+    let mut done = vec![false; o.n];
+    let mut closure_used = false;
+    loop {
+        let mut progress = false;
+        for k in 0..o.n {
+            if done[k] {
+                continue;
+            }
+            let old = match n2o[k] {
+                Some(x) => x,
+                None => continue,
+            };
+            done[k] = true;
+            progress = true;
+            let sg = match src.glyph(old as usize) {
+                Some(g) => g,
+                None => {
+                    cx.class("source:glyph-unreadable");
+                    return None;
+                }
+            };
+            let og = match o.glyph(k) {
+                Some(g) => g,
+                None => {
+                    cx.violation("outline", "output-glyph-unparsable", case.witness(format!("output glyph {} (source glyph {}) does not parse", k, old)));
+                    return None;
+                }
+            };
+            // component id bookkeeping first (defines new -> old for the extras)
+            if let (Glyph::Composite(oc), Glyph::Composite(sc)) = (&og.0, &sg.0) {
+                if oc.components.len() == sc.components.len() {
+                    for (p, q) in oc.components.iter().zip(sc.components.iter()) {
+                        let cn = p.gid as usize;
+                        if cn >= o.n {
+                            cx.violation("composite", "component-id-out-of-range", case.witness(format!("output glyph {} references component {} of {} glyphs", k, cn, o.n)));
+                            return None;
+                        }
+                        match n2o[cn] {
+                            Some(x) if x == q.gid => {}
+                            Some(x) => {
+                                cx.violation(
+                                    "composite",
+                                    "component-renumbering",
+                                    case.witness(format!("output glyph {} (source {}): component refers to output glyph {} which is source glyph {}, the source composite refers to {}", k, old, cn, x, q.gid)),
+                                );
+                                return None;
+                            }
+                            None => {
+                                if let Some(other) = o2n.get(&q.gid) {
+                                    cx.violation(
+                                        "composite",
+                                        "component-renumbering",
+                                        case.witness(format!("output glyph {} (source {}): source component {} is output glyph {} but the output composite refers to {}", k, old, q.gid, other, cn)),
+                                    );
+                                    return None;
+                                }
+                                n2o[cn] = Some(q.gid);
+                                o2n.insert(q.gid, cn as u16);
+                                closure_used = true;
+                            }
+                        }
+                    }
+                }
+            }
+            let map = |g: u16| n2o.get(g as usize).copied().flatten();
+            if !same_glyph(&og.0, &sg.0, Some(&map)) {
+                let sig = match (&sg.0, &og.0) {
+                    (Glyph::Composite(a), Glyph::Composite(b)) => {
+                        if a.instructions != b.instructions {
+                            "composite-instructions-differ"
+                        } else {
+                            "composite-differs"
+                        }
+                    }
+                    (Glyph::Simple(a), Glyph::Simple(b)) => {
+                        if a.contours == b.contours {
+                            "simple-instructions-differ"
+                        } else {
+                            "simple-outline-differs"
+                        }
+                    }
+                    _ => "glyph-kind-differs",
+                };
+                cx.violation("outline", sig, case.witness(format!("output glyph {} differs from source glyph {}: output {:?} source {:?}", k, old, og.0, sg.0).chars().take(1800).collect()));
+                return None;
+            }
+            let empty = matches!(sg.0, Glyph::Empty) || matches!(&sg.0, Glyph::Simple(s) if s.contours.is_empty());
+            if !empty && og.1 != sg.1 {
+                cx.violation("outline", "bbox-differs", case.witness(format!("output glyph {} bbox {:?}, source glyph {} bbox {:?}", k, og.1, old, sg.1)));
+                return None;
+            }
+        }
+        if !progress {
+            break;
+        }
+    }
+    if let Some(k) = n2o.iter().position(|x| x.is_none()) {
+        cx.violation("glyph-order", "extra-glyph-not-a-component", case.witness(format!("output glyph {} of {} is neither requested ({} ids) nor a component of a retained glyph", k, o.n, nreq)));
+        return None;
+    }
+    let n2o: Vec<u16> = n2o.into_iter().map(|x| x.unwrap_or(0)).collect();
+    // independent cross-check of the extras against the closure computed on the source
+    let extras = src.closure_extras(&case.ids);
+    let got: std::collections::BTreeSet<u16> = n2o[nreq..].iter().copied().collect();
+    if got != extras || n2o.len() != nreq + extras.len() {
+        cx.violation("glyph-order", "extras-differ-from-component-closure", case.witness(format!("extra glyphs (old ids) {:?}, component closure minus requested {:?}", got, extras).chars().take(1500).collect()));
+        return None;
+    }
+    // metrics
+    let mut tail = false;
+    for (k, old) in n2o.iter().enumerate() {
+        let want = src.metrics[*old as usize];
+        let got = o.metrics[k];
+        if (*old as usize) >= src.nhm {
+            tail = true;
+        }
+        if got != want {
+            let sig = if (*old as usize) >= src.nhm {
+                if got.0 != want.0 {
+                    "hmtx-tail-advance-differs"
+                } else {
+                    "hmtx-tail-lsb-differs"
+                }
+            } else if got.0 != want.0 {
+                "hmtx-advance-differs"
+            } else {
+                "hmtx-lsb-differs"
+            };
+            cx.violation("metrics", sig, case.witness(format!("output glyph {} (source glyph {}, numberOfHMetrics {}): (advance, lsb) {:?} expected {:?}", k, old, src.nhm, got, want)));
+            return None;
+        }
+    }
+    if closure_used {
+        cx.class("tt:composite-closure-exercised");
+    }
+    if case.ids.iter().any(|g| src.composites.contains(g)) {
+        cx.class("tt:composite-retained");
+    }
+    if tail {
+        cx.class("tt:hmtx-tail-exercised");
+    }
+    Some(n2o)
+}
+
+enum CffSide<'a> {
+    V1(CFF<'a>),
+    V2(CFF2<'a>),
+}
+
+impl<'a> CffSide<'a> {
+    fn visit(&mut self, g: u16) -> Result<Vec<Cmd>, String> {
+        let mut sink = RecSink::default();
+        match self {
+            CffSide::V1(c) => c.visit(g, &mut sink).map_err(|e| format!("{:?}", e))?,
+            CffSide::V2(c) => {
+                let mut o = CFF2Outlines { table: c, tuple: None };
+                o.visit(g, &mut sink).map_err(|e| format!("{:?}", e))?
+            }
+        }
+        Ok(sink.cmds)
+    }
+}
+
+/// CFF / CFF2 sources. `out_cff` is the output CFF table (bare for the Prince API).
+pub fn check_cff(cx: &mut Ctx, case: &Case, out_cff: &[u8], out_font: Option<&sfnt::Font>) {
+    let src = &case.src;
+    let nreq = case.ids.len();
+    let table = if src.kind == Kind::Cff { src.font.gets("CFF ") } else { src.font.gets("CFF2") };
+    let table = match table {
+        Some(t) => t,
+        None => return,
+    };
+    let ocff = match cff_c07::parse(out_cff) {
+        Some(c) => c,
+        None => {
+            cx.violation("output-readable", "output-cff-unparsable", case.witness("the independent CFF reader cannot read the output CFF table".into()));
+            return;
+        }
+    };
+    if ocff.charstrings.len() != nreq {
+        cx.violation("glyph-order", "cff-glyph-count", case.witness(format!("output has {} charstrings, {} requested", ocff.charstrings.len(), nreq)));
+        return;
+    }
+    // outlines through allsorts' interpreter on both sides
+    let ids = case.ids.clone();
+    let is_v1 = src.kind == Kind::Cff;
+    let res = cx.guard("cff-outlines", table.len() + out_cff.len(), || -> Result<Vec<(Result<Vec<Cmd>, String>, Result<Vec<Cmd>, String>)>, String> {
+        let mut s = if is_v1 { CffSide::V1(ReadScope::new(table).read::<CFF<'_>>().map_err(|e| format!("source: {:?}", e))?) } else { CffSide::V2(ReadScope::new(table).read::<CFF2<'_>>().map_err(|e| format!("source: {:?}", e))?) };
+        let mut o = CffSide::V1(ReadScope::new(out_cff).read::<CFF<'_>>().map_err(|e| format!("output: {:?}", e))?);
+        Ok(ids.iter().enumerate().map(|(k, g)| (s.visit(*g), o.visit(k as u16))).collect())
+    });
+    let pairs = match res {
+        None => return,
+        Some(Err(e)) => {
+            if e.starts_with("output") {
+                cx.violation("output-readable", "output-cff-rejected-by-allsorts", case.witness(e));
+            } else {
+                cx.class("source:cff-rejected");
+            }
+            return;
+        }
+        Some(Ok(p)) => p,
+    };
+    let mut compared = 0;
+    for (k, (s, o)) in pairs.iter().enumerate() {
+        match (s, o) {
+            (Ok(a), Ok(b)) => {
+                compared += 1;
+                if a != b {
+                    cx.violation("outline", if is_v1 { "cff-outline-differs" } else { "cff2-outline-differs" }, case.witness(format!("output glyph {} vs source glyph {}: output [{}] source [{}]", k, case.ids[k], cmds_str(b), cmds_str(a))));
+                    return;
+                }
+            }
+            (Ok(_), Err(e)) => {
+                cx.violation("outline", "cff-output-glyph-fails", case.witness(format!("output glyph {} (source glyph {}) fails with {} while the source glyph is fine", k, case.ids[k], e)));
+                return;
+            }
+            (Err(_), _) => cx.class("source:cff-glyph-not-interpretable"),
+        }
+    }
+    // declared widths (independent scanner)
+    let mut widths = 0;
+    for k in 0..nreq {
+        let want = match (&src.cff, src.kind) {
+            (Some(sc), Kind::Cff) => cff_c07::width(table, sc, case.ids[k] as usize),
+            (_, Kind::Cff2) => Some(src.metrics[case.ids[k] as usize].0 as f64),
+            _ => None,
+        };
+        let got = cff_c07::width(out_cff, &ocff, k);
+        if let (Some(w), Some(g)) = (want, got) {
+            widths += 1;
+            if (w - g).abs() > 1e-6 {
+                cx.violation("metrics", if is_v1 { "cff-charstring-width-differs" } else { "cff2-charstring-width-differs" }, case.witness(format!("output glyph {} declares width {}, source glyph {} has {}", k, g, case.ids[k], w)));
+                return;
+            }
+        }
+    }
+    // hmtx of the wrapped output
+    if let Some(f) = out_font {
+        let m = (|| {
+            let n = it::maxp_num_glyphs(f.gets("maxp")?)? as usize;
+            let nhm = it::Hhea::read(f.gets("hhea")?)?.num_h_metrics as usize;
+            Some((n, it::read_hmtx(f.gets("hmtx")?, n, nhm)?))
+        })();
+        match m {
+            Some((n, m)) if n == nreq => {
+                for k in 0..nreq {
+                    let want = src.metrics[case.ids[k] as usize];
+                    if m[k] != want {
+                        let tail = case.ids[k] as usize >= src.nhm;
+                        let sig = match (tail, m[k].0 != want.0) {
+                            (true, true) => "hmtx-tail-advance-differs",
+                            (true, false) => "hmtx-tail-lsb-differs",
+                            (false, true) => "hmtx-advance-differs",
+                            (false, false) => "hmtx-lsb-differs",
+                        };
+                        cx.violation("metrics", sig, case.witness(format!("output glyph {} (source glyph {}, numberOfHMetrics {}): (advance, lsb) {:?} expected {:?}", k, case.ids[k], src.nhm, m[k], want)));
+                        return;
+                    }
+                }
+                if case.ids.iter().any(|g| *g as usize >= src.nhm) {
+                    cx.class("cff:hmtx-tail-exercised");
+                }
+            }
+            Some((n, _)) => {
+                cx.violation("glyph-order", "cff-maxp-glyph-count", case.witness(format!("maxp.numGlyphs {} but {} glyphs requested", n, nreq)));
+                return;
+            }
+            None => {
+                cx.violation("output-readable", "output-hmtx-too-short", case.witness("hmtx / maxp / hhea of the output cannot be read".into()));
+                return;
+            }
+        }
+    }
+    if compared > 0 {
+        let variant = match (src.kind, src.cff.as_ref().map_or(false, |c| c.is_cid), ocff.is_cid) {
+            (Kind::Cff2, _, true) => "cff2->cff-cid",
+            (Kind::Cff2, _, false) => "cff2->cff-type1",
+            (_, true, _) => "cff:cid-keyed",
+            (_, false, true) => "cff:type1->cid-conversion",
+            _ => "cff:name-keyed",
+        };
+        cx.class(variant);
+        if ocff.privates.iter().any(|p| !p.subrs.is_empty()) {
+            cx.class("cff:local-subrs-retained");
+        }
+        if ocff.gsubrs.iter().any(|(a, b)| b > a) {
+            cx.class("cff:global-subrs-retained");
+        }
+        if ocff.privates.len() > 1 {
+            cx.class("cff:several-fds");
+        }
+        if widths > 0 {
+            cx.class("cff:widths-compared");
+        }
     }
 }
 
 impl Prop for C07 {
-    fn case(&mut self, cx: &mut Ctx, _rng: &mut Rng) {
-        cx.inconclusive("not-implemented");
+    fn case(&mut self, cx: &mut Ctx, rng: &mut Rng) {
+        // generated : real TrueType : CFF : CFF2 : variable : aots
+        let (case, _) = match subset_case(&mut self.w, cx, rng, [8, 5, 5, 3, 1, 1], None) {
+            Some(c) => c,
+            None => return,
+        };
+        let out = match run_op(cx, &case) {
+            None => return,
+            Some(Err(e)) => {
+                cx.class(&format!("op-error:{}", e.chars().take(40).collect::<String>()));
+                return;
+            }
+            Some(Ok(o)) => o,
+        };
+        cx.class(&format!("op:{}", case.op.name()));
+        cx.class(&format!("container:{}", case.container.name()));
+        cx.class(&format!("ids:{}", if case.id_mode.is_empty() { "0-only" } else { &case.id_mode }));
+        match case.src.kind {
+            Kind::TrueType => {
+                if check_truetype(cx, &case, &out).is_some() {
+                    cx.class(if case.src.generated { "tt:generated-ok" } else { "tt:real-ok" });
+                    cx.nontrivial(case.hash());
+                }
+            }
+            Kind::Cff | Kind::Cff2 => {
+                let before = cx.violations;
+                match case.op {
+                    Op::Prince { .. } => check_cff(cx, &case, &out, None),
+                    _ => match sfnt::Font::parse(&out) {
+                        Some(f) => match f.gets("CFF ") {
+                            Some(t) => check_cff(cx, &case, t, Some(&f)),
+                            None => cx.violation("output-readable", "output-table-missing", case.witness("no CFF table in the output".into())),
+                        },
+                        None => cx.violation("output-readable", "output-unparsable", case.witness("table directory".into())),
+                    },
+                }
+                if cx.violations == before {
+                    cx.nontrivial(case.hash());
+                }
+            }
+        }
+        if cx.want_sample() {
+            cx.sample(J::obj(vec![("font", J::s(case.src.name.clone())), ("ids", J::U(case.ids.len() as u64)), ("id_mode", J::s(case.id_mode.clone())), ("op", J::s(case.op.name())), ("container", J::s(case.container.name())), ("output_bytes", J::U(out.len() as u64))]));
+        }
+        let _ = Rc::strong_count(&case.src);
     }
 }
